@@ -72,6 +72,14 @@ func U64(name string, bits int) uint64 {
 	return q[0]
 }
 
+// Has reports whether the replay vector still holds a value for name (always true in the engine).
+func Has(name string) bool {
+	mu.Lock()
+	defer mu.Unlock()
+	load()
+	return len(queues[name]) > 0
+}
+
 // Assume restricts the inputs considered. Natively a violated assumption means the
 // vector does not follow this path: the replay stops as "not reproduced".
 func Assume(c bool) {
